@@ -143,6 +143,7 @@ var schemas = map[string][]field{
 	"FlushRequestB": {{"Election", "Election", kind{k: "oneof", s: "FlushElec"}}, {"NetworkInstance", "NetworkInstance", kind{k: "oneof", s: "FlushNI"}}},
 	"ConvTok":           {{"Tag", "Tag", kNat}},
 	"ReconOpX":          {{"Id", "Id", kNat}, {"NetworkInstance", "NetworkInstance", kStr}, {"Op", "Op", kEnum}, {"Entry", "Entry", kind{k: "oneof", s: "ReconEntryX"}}},
+	"opResult":          {{"r", "r", kPtrNN("COpResult")}},
 	"gRIBIGet":          {{"pb", "pb", kPtrNN("GetRequestG")}},
 	"gRIBIFlush":        {{"pb", "pb", kPtrNN("FlushRequestB")}},
 	"ModifyRequestE":    {{"ElectionId", "ElectionId", kPtr("Uint128")}},
@@ -225,7 +226,7 @@ var leanStruct = map[string]string{
 	"AFTResultList": "(List AFTResultC)", "Bool": "Bool", "pendingQueue": "PendingQueue", "pendingEntry": "PendingEntry", "RibOpResult": "RibOpResult", "OrigTop": "OrigTop", "OrigNHGMember": "OrigNHGMember", "OrigNHG": "OrigNHG", "KeyRIB": "KeyRIB", "GPrefix": "GPrefix", "GLabel": "GLabel", "GId": "GId", "GIndex": "GIndex", "GAFTEntry": "GAFTEntry", "cache": "GetCache", "GetResponseG": "GetResponseG", "ReconEntS": "ReconEnt", "ReconEntN": "ReconEnt", "ReconAfts": "ReconAfts", "ReconNI": "ReconNI", "ReconOp": "ReconOp", "TblEntry": "TblEntry", "NewElem": "NewElem", "NewAfts": "NewAfts", "NewRIB": "NewRIB", "StringValue": "StringValue", "UintValue": "UintValue", "NewTop": "NewTop", "NewNHGMember": "NewNHGMember", "NewNHG": "NewNHG", "FlNHG": "FlNHG", "HolderG": "HolderG", "ErrView": "ErrView", "ClientErrG": "ClientErrG", "GStatus": "GStatus", "StrBox": "String", "ErrOptG": "ErrOptG", "UintBox": "Nat", "FlushErr": "FlushErr", "Nat": "Nat", "Status": "Status",
 	"BytesValue": "BytesValue", "TopEntryB": "TopEntryB", "Ipv4KeyB": "Ipv4KeyB", "Ipv6KeyB": "Ipv6KeyB", "PoppedU": "PoppedU", "LabelEntryB": "LabelEntryB", "LabelKeyB": "LabelKeyB", "NhgNhB": "NhgNhB", "NhgNhKeyB": "NhgNhKeyB", "NhgPayloadB": "NhgPayloadB", "NhgKeyB": "NhgKeyB", "AFTOperationB": "AFTOperationB", "AFTEntryB": "AFTEntryB", "FlushRequestB": "FlushRequestB",
 	"BoolValue": "BoolValue", "IfRefB": "IfRefB", "IpInIpB": "IpInIpB", "PushedU": "PushedU", "NhPayloadB": "NhPayloadB", "NhKeyB": "NhKeyB", "nextHopEntry": "NhBuilder",
-	"ConvTok": "ConvTok", "ReconOpX": "ReconOpX",
+	"ConvTok": "ConvTok", "ReconOpX": "ReconOpX", "opResult": "OpResultBuilder",
 	"ModifyRequestE": "ModifyRequestE", "ReqTok": "ReqTok", "gRIBIGet": "GetBuilder", "gRIBIFlush": "FlushBuilder",
 	"ipv4Entry": "Ipv4Builder", "ipv6Entry": "Ipv6Builder", "labelEntry": "LabelBuilder", "nextHopGroupEntry": "NhgBuilder",
 }
@@ -519,6 +520,7 @@ func init() {
 	for _, c := range strings.Fields("EncapType_IPV4 EncapType_MPLS EncapType_UDPV6 AFTType_INVALID AFTType_ALL AFTType_IPV4 AFTType_IPV6 AFTType_MPLS AFTType_NEXTHOP AFTType_NEXTHOP_GROUP AFTType_MAC AFTType_POLICY_FORWARDING") {
 		knownCtors[c] = true
 	}
+	knownCtors["SessionParametersResult_OK"] = true
 	for _, c := range strings.Fields("AFTResult_UNSET AFTResult_FAILED AFTResult_RIB_PROGRAMMED AFTResult_FIB_PROGRAMMED AFTResult_FIB_FAILED") {
 		knownCtors[c] = true
 	}
@@ -929,7 +931,7 @@ func trExpr(e ast.Expr, en env) val {
 		if x, ok := en.vars[r]; ok { // state field such as s.curElecID
 			if cur != nil && cur.isState(r) {
 				requireHeld(v.Pos(), en, "read of "+r)
-				if cur.builder && x.kd.k == "ptr" && x.kd.nn && !selectorParent[v] {
+				if cur.builder && !cur.mayHandOut && x.kd.k == "ptr" && x.kd.nn && !selectorParent[v] {
 					// the builder's own protobuf handed out as it is: later calls on the builder
 					// would change what was handed out
 					fail(v.Pos(), "%s is handed out without a copy (proto.Clone)", r)
@@ -952,7 +954,7 @@ func trExpr(e ast.Expr, en env) val {
 			fail(v.Pos(), "constant %s is not declared in the function's specification", r)
 		}
 		if id, ok := v.X.(*ast.Ident); ok && id.Name == "spb" {
-			for _, p := range []string{"SessionParameters_", "AFTOperation_", "AFTType_", "AFTResult_"} {
+			for _, p := range []string{"SessionParameters_", "SessionParametersResult_", "AFTOperation_", "AFTType_", "AFTResult_"} {
 				if strings.HasPrefix(v.Sel.Name, p) {
 					return val{lean: knownCtor(v.Pos(), v.Sel.Name), kd: kEnum}
 				}
@@ -4455,6 +4457,10 @@ func trRetVal(e ast.Expr, want string, en env) string {
 		}
 		if x.kd.k != "ptr" || x.kd.s != strings.TrimPrefix(want, "ptr:") {
 			fail(e.Pos(), "returned value of kind %s, %s expected", x.kd, want)
+		}
+		if x.kd.nn {
+			// a pointer that is never nil is represented by the struct itself
+			return "(some " + atom(x.lean) + ")"
 		}
 		return x.lean
 	}
